@@ -71,9 +71,14 @@ FamR(PS) == {[ev |-> "Remove", pool |-> p, h |-> h] : p \in PS, h \in ABC \cup {
 Pick(S, n) == LET qq == SetToSeq(S) IN {qq[i] : i \in {j \in 1..Len(qq) : (j + Seed) % n = 0}}
 P8 == Pools(ABC, 8)
 P3 == Pools(ABC, 3)
+\* quick tier: all pools of length <= 3, a seed-dependent sample of lengths 5..6 and of lengths 7..8
+\* (built as concatenations, so that the 9 841-element P8 is never enumerated)
+Exact(S, k) == [1..k -> S]
+LongQ == {p \o q : p \in Pick(Exact(ABC, 4), 7), q \in Pick(Exact(ABC, 4) \cup Exact(ABC, 3), 11)}
+PQ == P3 \cup LongQ \cup Pick(Exact(ABC, 5) \cup Exact(ABC, 6), 30)
 Blocks == IF Tier = "thorough" THEN FamE(P8) \cup FamF(Pools(ABC, 6)) \cup FamN \cup FamM \cup FamP
-          ELSE FamE(P3 \cup Pick(P8, 40)) \cup FamF(Pools(ABC, 2) \cup Pick(P8, 150)) \cup Pick(FamN, 6) \cup Pick(FamM, 5) \cup Pick(FamP, 2)
-Removes == IF Tier = "thorough" THEN FamR(P8) ELSE FamR(P3 \cup Pick(P8, 40))
+          ELSE FamE(PQ) \cup FamF(Pools(ABC, 2) \cup Pick(PQ, 3)) \cup Pick(FamN, 6) \cup Pick(FamM, 5) \cup Pick(FamP, 2)
+Removes == IF Tier = "thorough" THEN FamR(P8) ELSE FamR(PQ)
 
 ASSUME ndJsonSerialize(OutFile, SetToSeq({[ev |-> "Block"] @@ c : c \in Blocks}) \o SetToSeq(Removes))
 ASSUME PrintT(<<"GEN", Cardinality(Blocks), Cardinality(Removes)>>)
